@@ -112,7 +112,7 @@ func execStackCase(c stackCase, s core.Source) core.Result {
 	return execStack(c, cdInt)
 }
 
-func execStack[E any](c stackCase, cd codec[E]) core.Result {
+func execStack[E any](c stackCase, cd lib.Codec[E]) core.Result {
 	var res core.Result
 	class := col.Stack[E](lib.Notation())
 	def := class.DefaultCapacity()
@@ -136,7 +136,7 @@ func execStack[E any](c stackCase, cd codec[E]) core.Result {
 		case "seq-stack-cap":
 			source = class.MakeWithCapacity(c.Cap)
 			for i := len(c.Init) - 1; i >= 0; i-- {
-				source.AddValue(cd.enc(c.Init[i]))
+				source.AddValue(cd.Enc(c.Init[i]))
 			}
 			st = class.MakeFromSequence(source)
 		}
@@ -193,7 +193,7 @@ func execStack[E any](c stackCase, cd codec[E]) core.Result {
 		switch op.Kind {
 		case "push":
 			full := uint(len(model)) >= capacity
-			p, _ := lib.Call(func() { st.AddValue(cd.enc(op.Val)) })
+			p, _ := lib.Call(func() { st.AddValue(cd.Enc(op.Val)) })
 			if full && !p {
 				res.Violation = core.Violate("C13/push-on-full-returned", "step %d: AddValue on a full stack (size %d, capacity %d) returned", i, len(model), capacity)
 				return res
@@ -209,7 +209,7 @@ func execStack[E any](c stackCase, cd codec[E]) core.Result {
 			}
 		case "pop":
 			var got int
-			p, _ := lib.Call(func() { got = cd.dec(st.RemoveTop()) })
+			p, _ := lib.Call(func() { got = cd.Dec(st.RemoveTop()) })
 			if len(model) == 0 {
 				if !p {
 					res.Violation = core.Violate("C13/pop-on-empty-returned", "step %d: RemoveTop on an empty stack returned %d", i, got)
@@ -246,7 +246,7 @@ func execStack[E any](c stackCase, cd codec[E]) core.Result {
 		}
 		before := decAll(cd, st.AsArray())
 		lib.Call(func() { source.RemoveTop() })
-		lib.Call(func() { source.AddValue(cd.enc(-1)) })
+		lib.Call(func() { source.AddValue(cd.Enc(-1)) })
 		source.RemoveAll()
 		if arr := decAll(cd, st.AsArray()); !lib.EqInts(arr, before) {
 			res.Violation = core.Violate("C13/ctor/shares-source", "changing the source stack changed the stack made from it: %v -> %v", before, arr)
@@ -260,7 +260,7 @@ func execStack[E any](c stackCase, cd codec[E]) core.Result {
 	if reachedEmpty {
 		res.Classes = append(res.Classes, "reached-empty")
 	}
-	res.Classes = append(res.Classes, "ctor-"+c.Ctor, "elem-"+cd.name)
+	res.Classes = append(res.Classes, "ctor-"+c.Ctor, "elem-"+cd.Name)
 	return res
 }
 
